@@ -47,7 +47,7 @@ N == Len(prog)
 Idx(t) == {i \in 1..N : env[i].t = t}
 IntLike == Idx("int")
 Small(i) == SmallInt(env[i].v)
-NPrints == Cardinality({i \in 1..N : prog[i].k \in {"print", "ifp", "uprint"}})
+NPrints == Cardinality({i \in 1..N : prog[i].k \in {"print", "ifp", "uprint", "ublockp"}})
 
 RECURSIVE Join(_, _)
 Join(xs, sep) == IF xs = <<>> THEN "" ELSE IF Len(xs) = 1 THEN xs[1] ELSE xs[1] \o sep \o Join(Tail(xs), sep)
@@ -95,6 +95,17 @@ PrintS(a) ==
 UPrint(s) ==
   /\ Go /\ "uprint" \in Templates /\ NPrints < MaxPrints
   /\ Push(Stmt("uprint", "", 0, 0, 0, s), None) /\ out' = Append(out, s) /\ UNCHANGED status
+\* an unused private definition whose value is a block:  u<n> = (w<n> = a // b ; 2)  or with a print inside
+UBlock(a, b) ==
+  /\ Go /\ "ublock" \in Templates /\ a \in IntLike /\ b \in IntLike
+  /\ LET v == Val("//", env[a], env[b]) IN
+     /\ v.t # "skip"
+     /\ Push(Stmt("ublock", "//", a, b, 0, ""), None)
+     /\ status' = (IF v.t = "zde" THEN "ZeroDivisionError" ELSE "ok")
+  /\ UNCHANGED out
+UBlockP(s) ==
+  /\ Go /\ "ublockp" \in Templates /\ NPrints < MaxPrints
+  /\ Push(Stmt("ublockp", "", 0, 0, 0, s), None) /\ out' = Append(out, s) /\ UNCHANGED status
 IfP(c, a, b) ==
   /\ Go /\ "ifp" \in Templates /\ c \in Idx("bool") /\ a \in IntLike /\ b \in IntLike /\ NPrints < MaxPrints
   /\ Push(Stmt("ifp", "", a, b, c, ""), None)
@@ -113,10 +124,10 @@ Call(f, a) ==
   /\ Go /\ "call" \in Templates /\ a \in IntLike
   /\ (f = "fact" => Small(a) /\ ToSmall(env[a].v) \in 0..6)
   /\ Push(Stmt("call", f, a, 0, 0, ""), Apply(f, env[a])) /\ UNCHANGED <<out, status>>
-Loop(k, a) ==    \* k = "loop": sum of 0..<a ; k = "wloop": count up to a
+Loop(k, a) ==    \* "loop": sum of 0..<a ; "wloop": count while cnt < a ; "wloople": count while cnt <= a
   /\ Go /\ k \in Templates /\ a \in IntLike /\ Small(a) /\ ToSmall(env[a].v) \in 0..6
   /\ LET n == ToSmall(env[a].v) IN
-     Push(Stmt(k, "", a, 0, 0, ""), VInt(FromInt(IF k = "loop" THEN (n * (n - 1)) \div 2 ELSE n)))
+     Push(Stmt(k, "", a, 0, 0, ""), VInt(FromInt(IF k = "loop" THEN (n * (n - 1)) \div 2 ELSE IF k = "wloop" THEN n ELSE n + 1)))
   /\ UNCHANGED <<out, status>>
 LMk(a, b) == /\ Go /\ "lmk" \in Templates /\ a \in IntLike /\ b \in IntLike
              /\ Push(Stmt("lmk", "", a, b, 0, ""), VList(<<env[a], env[b]>>)) /\ UNCHANGED <<out, status>>
@@ -139,17 +150,17 @@ CmpOpsP == {"==", "!=", "<", "<=", ">", ">="}
 Next ==
   \/ \E l \in IntLits : ILit(l)
   \/ \E f \in FloatLits : FLit(f)
-  \/ \E s \in StrLits : SLit(s) \/ UPrint(s) \/ \E a \in 1..N : Interp(a, s)
+  \/ \E s \in StrLits : SLit(s) \/ UPrint(s) \/ UBlockP(s) \/ \E a \in 1..N : Interp(a, s)
   \/ \E a, b \in 1..N :
         \/ \E op \in {"+", "-", "*", "//", "%"} : Bin(op, a, b)
         \/ \E op \in {"+", "-", "*"} : FBin(op, a, b)
         \/ \E op \in CmpOpsP : Cmpr(op, a, b)
-        \/ SCat(a, b) \/ LMk(a, b) \/ LCat(a, b) \/ TPat(a, b)
+        \/ SCat(a, b) \/ LMk(a, b) \/ LCat(a, b) \/ TPat(a, b) \/ UBlock(a, b)
         \/ \E c \in 1..N : IfP(c, a, b)
   \/ \E a \in 1..N :
         \/ PrintS(a) \/ LLen(a) \/ AssertS(a)
         \/ \E f \in Funs : Call(f, a)
-        \/ \E k \in {"loop", "wloop"} : Loop(k, a)
+        \/ \E k \in {"loop", "wloop", "wloople"} : Loop(k, a)
         \/ \E i \in 0..3 : LGet(a, i)
 Spec == Init /\ [][Next]_vars
 
@@ -161,6 +172,11 @@ PairShape == /\ \A i \in 1..N : (i <= 2 <=> prog[i].k = "ilit")
              /\ (N >= 3 => prog[3].a = 1 /\ prog[3].b = 2)
              /\ (N >= 4 => prog[4].k = "print" /\ prog[4].a = 3)
 
-Complete == N > 0 /\ (status # "ok" \/ prog[N].k \in {"print", "ifp", "uprint"})
+\* state constraint for the unit grid: literals first (at most two), one print, and it comes last
+UnitShape == /\ \A i \in 1..N : (prog[i].k = "ilit" => i <= 2)
+             /\ (N >= 1 => prog[1].k = "ilit")
+             /\ \A i \in 1..(N - 1) : prog[i].k \notin {"print", "ifp"}
+
+Complete == N > 0 /\ (status # "ok" \/ prog[N].k \in {"print", "ifp", "uprint", "ublockp"})
 Emit == Complete => PrintT(<<"G", ToJson([prog |-> prog, out |-> out, status |-> status])>>)
 =============================================================================
